@@ -362,6 +362,12 @@ FIXED = [
     "scn udp 1 0 0 aping:1 pong:1 ping:2:0 pong:2 aping:3 close",
     "scn tcp 1 0 0 aping:1 close",
     "scn tcp 1 0 0 obs:1:o:0 resp:1:x:69:4:3 resp:1:x:69:4:4 obscancel:1 resp:1:x:69:4:- do:2:2:a:con:40:0 cont:2:0 close",
+    # the registration of an observation / a one-way confirmable request answered by a SEPARATE response before the acknowledgement
+    # (repair of F42: the response acknowledges by its token): the call is over, nothing of it stays; the late ACK re-creates nothing
+    "scn udp 0 0 0 obs:1:o:0 resp:1:non:69:4:7 settle ack:1 resp:1:non:69:4:8 settle obscancel:1 resp:1:pig:69:4:- settle",
+    "scn udp 1 0 0 obs:1:o:0 sleep:2500 tick resp:1:con:69:4:7 settle sleep:2500 tick ack:1 settle",
+    "scn udp 0 0 0 write:1:con resp:1:non:69:4:- settle ack:1 write:2:con sleep:2500 tick cancel:2 settle resp:2:non:69:4:- settle",
+    "scn udp@1 0 0 0 do:1:1:a:con:0:0 write:2:con write:3:con resp:1:non:69:4:- settle resp:2:con:69:4:- settle cancel:3 settle ack:3 ack:2 ack:1 settle",
     "disc timeout", "disc cancel", "disc duptoken", "disc badaddr", "disc notoken", "disc many",
 ]
 
